@@ -85,8 +85,11 @@ def gen_model_spec(rng):
     obj = {rng.choice(rids): dy(rng, -2, 2, 1) or "1"} if rng.random() < 0.8 else {}
     obj = {k: v for k, v in obj.items() if Fraction(v) != 0}
     groups = []
-    if rng.random() < 0.4:
+    if rng.random() < 0.45:
         groups.append({"id": "grp1", "members": [["r", rng.choice(rids)], ["m", rng.choice(mids)]] + ([["g", gids[0]]] if gids else [])})
+        if gids and rng.random() < 0.6:
+            # a second group over genes only: one or two of them, so that a removal / renaming of several genes meets a group that holds some of them
+            groups.append({"id": "grp2", "members": [["g", x] for x in rng.sample(gids, rng.randint(1, min(2, len(gids))))]})
     return {"rxns": rxns, "obj": obj, "dir": rng.choice(["max", "max", "min"]), "groups": groups, "extra_mets": [m for m in mids if rng.random() < 0.2]}
 
 
